@@ -73,7 +73,7 @@ contract("BloomFilterOnDisk.close", contexts=["BloomFilterOnDisk"], properties=[
          let=[("count0", "le_bytes(self._bloom, self._bloom_length + 8, 8)"), ("was_open", "fp_open(self)")],
          requires=["inv_bloom_disk(self)", ("nothing_buffered", "implies(fp_open(self), " + _NO_PENDING + ")"),
                    ("count_fits_uint64", "0 <= self._els_added < 2**64")],
-         modifies=["self._bloom", FP], pointwise=_FILE_OK,
+         modifies=["self._bloom", FP, "fs"], pointwise=_FILE_OK,
          ensures=[("file_holds_the_mapped_bytes_with_the_current_count",
                    "implies(was_open, len(file_bytes(self._filepath)) == old(len(self._bloom)) and "
                    "le_bytes(file_bytes(self._filepath), self._bloom_length + 8, 8) == self._els_added and "
